@@ -6,7 +6,7 @@
  R3  escape symmetry: whether escape() emits the escape character depends only on the character, never on its position
  R4  printers and the tokenizer agree on the delimiter handed to escape() / unescape(); operators are consumed by longest-match length
 """
-from vlib.facts import kids, strip, walk, is_call, call_args, call_object, callee, render, literal, noid, is_null_const
+from vlib.facts import decl_of, kids, strip, walk, is_call, call_args, call_object, callee, render, literal, noid, is_null_const
 from vlib.cfg import write_target
 from vlib.work import AnalysisBroken
 
@@ -78,6 +78,7 @@ def run(ctx):
     R.rule("C12-R6", "a line start recorded inside a scanning loop is computed from the pointer that loop advances", floor=8)
     R.rule("C12-R7", "every operator spelling the printer can emit is known to the tokenizer (registered in getOperators)", floor=45)
     R.rule("C12-R9", "a block comment is scanned from behind its opener to the first `*/`, with no escape character", floor=2)
+    R.rule("C12-R10", "a literal is not split off an identifier: the character behind it is tested against every identifier character when the literal is spelled like one", floor=1)
     R.rule("C12-R4", "escape/unescape delimiters agree between printers and tokenizer; operator consumed by match length", floor=6)
 
     methods = [f for f in prog.methods_of("occa::lang::tokenizer_t")]
@@ -390,6 +391,7 @@ def run(ctx):
                                   for a in adv if not any(x["i"] == loops[0]["i"] for x in bc.ancestors(a)))
     R.ob("C12-R9", skipped, bc.q, "the opener is stepped over before the scan", bc.site(adv[0]) if adv else "%s:%d" % (bc.relfile, bc.d["line"]),
          "the scan starts behind `/*`" if skipped else "the scan starts on the opener's own `*`: `/*/` is taken for a complete comment and the rest of it becomes live tokens")
+    literal_boundary(prog, R)
     # operators are split by longest match: the lookup structure is the trie (shared clause with C28)
     from rules import c28
     from vlib.refile import refile
@@ -460,6 +462,51 @@ def scanner_shape(ctx, R):
                  "and the first diagnostic printed on it throws std::length_error (abort)" % bt)
     if n6 < 6:
         raise AnalysisBroken("tokenizer: only %d line-start updates inside loops found" % n6)
+
+
+def literal_boundary(prog, R):
+    """R10: primitive::load() reads `true` / `false` as literals; shallowPeek() may only classify them as such when the identifier does not go on"""
+    sp = prog.fn(TK + "shallowPeek")
+    loads = [c for c in sp.calls() if callee(c).endswith("primitive::load")]
+    if not loads:
+        raise AnalysisBroken("shallowPeek: primitive::load call not found")
+    pos = decl_of(call_args(loads[0])[0])
+    rets = [n for n in sp.walk() if n["k"] == "ReturnStmt" and "primitive" in render(n, False)]
+    if pos is None or not rets:
+        raise AnalysisBroken("shallowPeek: literal end pointer / `return tokenType::primitive` not found")
+    defs = sp.local_defs()
+
+    def charsets(e, depth=0):
+        out = set()
+        for x in walk(e):
+            if x["k"] == "DeclRefExpr":
+                if x.get("loc") and depth < 4:
+                    for d in defs.get(x["d"], []):
+                        out |= charsets(d, depth + 1) if d["i"] != e.get("i") else set()
+                else:
+                    r = render(x, False)
+                    if "charcodes::" in r:
+                        out.add(r.split("charcodes::")[-1])
+            elif x["k"] in ("MemberExpr",) and "Charcodes" in render(x, False):
+                out.add(noid(render(x, False)))
+        return out
+
+    for ret in rets:
+        tested = set()
+        digit = False
+        for c in sp.calls():
+            pc = sp.cfg.position(c)
+            if not pc or sp.cfg.find_path(pc, lambda b, i, e: e == ret["i"], lambda b, i, e: False) is None:
+                continue
+            a = call_args(c)
+            if callee(c).endswith("lex::inCharset") and len(a) == 2 and any(x["k"] == "DeclRefExpr" and x.get("d") == pos for x in walk(a[0])):
+                tested |= charsets(a[1])
+            if callee(c).split("::")[-1] in ("isdigit", "isalnum", "isDigit", "isAlphanumeric") and any(x["k"] == "DeclRefExpr" and x.get("d") == pos for x in walk(c)):
+                digit = True
+        ok = "identifier" in tested or ("identifierStart" in tested and ("number" in tested or "alphanumber" in tested or digit))
+        R.ob("C12-R10", ok, sp.q, "behind-literal:tested against {%s}" % ", ".join(sorted(tested)), sp.site(ret),
+             "digits and letters behind `true` / `false` keep it an identifier" if ok else
+             "only characters that can START an identifier are refused behind a literal; `true1` / `false0` are split into a boolean and a number although they are single identifiers")
 
 
 def operator_registration(ctx, R):
